@@ -29,6 +29,8 @@ fn main() {
             mon::worker_main(check.as_ref(), tier, seed);
         }
         "debug" => checks::debug(&args[2..]),
+        "dump" => checks::det16::dump_main(&args[2..]),
+        "crash" => checks::crash03::crash_main(&args[2..]),
         _ => {
             eprintln!("usage: vcheck run <Cxx> quick|thorough | worker <Cxx> <tier> <seed> | debug ...");
             std::process::exit(3);
